@@ -105,25 +105,40 @@ func hasBigString(v *V) bool {
 // points where the textual and the numeric order of the indexes differ first
 // (10 < 2, 100 < 11, 110 < 12); the containers stand alone and below an object
 // key, inside an array, next to a second container of the same kind and two
-// levels down.
+// levels down (the nestings thin out with the length: all seven up to 21 elements,
+// four up to 111, two up to 257).
 
 var seqLens = []int{2, 3, 9, 10, 11, 12, 19, 20, 21, 99, 100, 101, 110, 111, 255, 256, 257}
 
 type seqWrap struct {
 	name string
-	// all: every container header form of the format; otherwise the shortest encoding
-	all bool
-	fn  func(x, y *V) *V // y: a second container of the same kind, one element longer
+	// forms: the container header forms of the format (and the forms of the enclosing
+	// nodes, one at a time) are varied; otherwise the shortest encoding only
+	forms bool
+	maxN  int               // applied to the lengths up to maxN
+	fn    func(x, y *V) *V // y: a second container of the same kind, one element longer
 }
 
 var seqWraps = []seqWrap{
-	{"alone", true, func(x, y *V) *V { return x }},
-	{"in-object", true, func(x, y *V) *V { return vMap([]string{"a"}, []*V{x}) }},
-	{"in-array", true, func(x, y *V) *V { return vArr(x) }},
-	{"siblings-in-array", false, func(x, y *V) *V { return vArr(x, y) }},
-	{"siblings-in-object", false, func(x, y *V) *V { return vMap([]string{"a", "b"}, []*V{x, y}) }},
-	{"object-array", false, func(x, y *V) *V { return vMap([]string{"a"}, []*V{vArr(vStr(1), x, vStr(1))}) }},
-	{"array-object", false, func(x, y *V) *V { return vArr(vMap([]string{"a"}, []*V{x})) }},
+	{"alone", true, 257, func(x, y *V) *V { return x }},
+	{"in-object", true, 257, func(x, y *V) *V { return vMap([]string{"a"}, []*V{x}) }},
+	{"in-array", true, 111, func(x, y *V) *V { return vArr(x) }},
+	{"siblings-in-array", false, 21, func(x, y *V) *V { return vArr(x, y) }},
+	{"siblings-in-object", false, 21, func(x, y *V) *V { return vMap([]string{"a", "b"}, []*V{x, y}) }},
+	{"object-array", false, 111, func(x, y *V) *V { return vMap([]string{"a"}, []*V{vArr(vStr(1), x, vStr(1))}) }},
+	{"array-object", false, 21, func(x, y *V) *V { return vArr(vMap([]string{"a"}, []*V{x})) }},
+}
+
+// seqMode: which encodings of an order family value are decoded. The header forms
+// are a matter of the grid; here they are crossed with the small lengths only.
+func seqMode(w seqWrap, n int) mode {
+	switch {
+	case w.forms && n <= 21:
+		return mode{full: true, sum: true}
+	case w.forms && n <= 111 && w.name == "alone":
+		return mode{sum: true}
+	}
+	return mode{sum: true, canon: true}
 }
 
 // orderCases: every length x {array, object} x every nesting the format can express.
@@ -143,16 +158,15 @@ func (sp *spec) orderCases() []valCase {
 	}
 	for _, n := range seqLens {
 		for _, w := range seqWraps {
+			if n > w.maxN {
+				continue
+			}
 			for _, mk := range []func(int) *V{vSeqArr, vSeqMap} {
 				v := w.fn(mk(n), mk(n+1))
 				if !admissible(v) {
 					continue
 				}
-				m := mode{sum: true}
-				if !w.all {
-					m.canon = true
-				}
-				out = append(out, valCase{v: v, m: m, fam: "order"})
+				out = append(out, valCase{v: v, m: seqMode(w, n), fam: "order"})
 			}
 		}
 	}
